@@ -861,6 +861,18 @@ pub fn ladders<T: BFlavor>(prop: &'static str, mon: u32, tier: Tier) -> (Acc, Va
             }
         }
     }
+    // a run of n separator-like characters INSIDE a field, between two letters (and at both ends at once)
+    let mut sandwiches: Vec<(usize, String)> = Vec::new();
+    for field in 0..5usize {
+        for u in ["/", ".", "-", " ", "%", "a/", "./", "../", "//."] {
+            for n in 0..=24usize {
+                sandwiches.push((field, format!("x{}y", u.repeat(n))));
+                if n > 0 {
+                    sandwiches.push((field, format!("{}x{}", u.repeat(n), u.repeat(n))));
+                }
+            }
+        }
+    }
     let run_case = |refb: &RefBuilder, acc: &mut Acc| {
         let trace = || json!({"engine": format!("{}-product", T::MODEL), "ty": refb.ty, "ns": refb.ns, "name": refb.name, "version": refb.version, "subpath": refb.subpath, "quals": refb.quals.iter().map(|(k, v)| json!([k, v])).collect::<Vec<_>>()});
         let r = guarded(|| {
@@ -894,6 +906,23 @@ pub fn ladders<T: BFlavor>(prop: &'static str, mon: u32, tier: Tier) -> (Acc, Va
             run_case(&refb, acc);
         }
     });
+    let sw = par_items(sandwiches.len(), threads(), |i, acc| {
+        let (field, text) = &sandwiches[i];
+        for t in [&ty, &ty2] {
+            let mut refb = RefBuilder { ty: (*t).clone(), ns: "g".into(), name: "n".into(), ..Default::default() };
+            match field {
+                0 => refb.ns = text.clone(),
+                1 => refb.name = text.clone(),
+                2 => refb.version = text.clone(),
+                3 => {
+                    refb.quals.insert("k".into(), text.clone());
+                },
+                _ => refb.subpath = text.clone(),
+            }
+            run_case(&refb, acc);
+        }
+    });
+    acc.merge(sw);
     let length_cases = acc.evals;
     // qualifier counts: the reference map is insertion-order independent, the real builder is driven
     // in three orders with alternating key case; then each single key is removed again
